@@ -140,6 +140,20 @@ CHECKS = {
             "SCR/NMFI) and the frame condition are compared with the model. 13 kinds of store;load pairs with the listed "
             "registers clobbered in between must restore all listed registers and the base.",
             "Trusted: armmc/ref/rows_block.py. UNKNOWN base values are don't-care.", "3 C03"),
+    "C12": ("product enumeration on the real PSR-write / exception-return / coprocessor-gating code against the reference "
+            "model, invariants where the model says UNPREDICTABLE, and exception-entry + return round-trip histories with "
+            "a differential oracle",
+            "(a) cpsr_write_by_instr / spsr_write_by_instr for all 32 mode numbers x upper-bit patterns x 16 byte masks x "
+            "exception-return flag x CPSR background x 9 current modes x secure/non-secure x NMFI x SCR.AW x SCR.FW x 4 "
+            "configurations; where the model classes the write UNPREDICTABLE the invariants still checked are: no illegal "
+            "mode installed, no unprivileged A/I/F/M change, T/J/IT only on exception return. (b) generated MSR/MRS/CPS/"
+            "SETEND/SUBS PC,LR/ERET/hint instances stepped and compared with ref.rows_sys. (c) for every exception kind x "
+            "interrupted state (mode, T, ITSTATE, masks, security state, PC) the exception is taken and that kind's standard "
+            "return instruction executed at the vector from ARM and Thumb handlers: CPSR, every register and the resume PC "
+            "must be back. (e) 12 coprocessor numbers x CPACR field x NSACR x HCPTR x mode x security state x instruction set "
+            "x 7 coprocessor instructions: Undefined / Hyp trap / hook reached per CoprocAccepted.",
+            "Trusted: ref.rows_block.cpsr_write_by_instr, ref.rows_sys, ref.exc. Two open known findings (privileged MRS "
+            "Rd,CPSR).", "3 C12"),
 }
 NOT_YET = "check not built yet in this round (see DESIGN.md section 3 for the planned bounded-exhaustive formulation)"
 
